@@ -18,7 +18,7 @@ RULE = ("(1) every string over {a,b,/,*,?,.} up to length 4 (quick) / 5 (thoroug
         "length 3 (quick) / 4 (thorough) against an independent recursive matcher (equal / ancestor of a possible match / descendant "
         "of a match, `*` = one whole component); (3) resolveWildcard on random real directory trees (names sharing prefixes, dot-names, "
         "regular files that match, a sibling directory whose name extends the fs root) against a per-component fnmatch walk; "
-        "(4) comma-separated cgroup lists. Parts (1),(2) are exhaustive within the stated length. "
+        "(4) comma-separated cgroup lists. Parts (1),(2) are exhaustive within the stated length and are complemented by 3000 random strings of length 6-14 (paths, equality pairs, pattern pairs). "
         "non-trivial = a query whose reference answer is non-empty/true; distinct by query")
 ASSUMPTIONS = ["patterns containing '.' or '..' components are don't-care for resolution (they are not cgroup names)",
                "GLOB_BRACE syntax is outside the alphabet"]
@@ -34,7 +34,7 @@ def strings(maxlen):
 
 def cases(seed, tier):
     quick = tier != "thorough"
-    yield core.Case("C16-paths", [], {"part": "paths", "maxlen": 4 if quick else 5}, driver="custom")
+    yield core.Case("C16-paths", [], {"part": "paths", "maxlen": 4 if quick else 5, "seed": seed}, driver="custom")
     yield core.Case("C16-pairs", [], {"part": "pairs", "maxlen": 3 if quick else 4}, driver="custom")
     yield core.Case("C16-resolve", [], {"part": "resolve", "trees": 300 if quick else 5000, "seed": seed}, driver="custom")
     yield core.Case("C16-lists", [], {"part": "lists", "n": 400 if quick else 5000, "seed": seed}, driver="custom")
@@ -50,8 +50,9 @@ def expect_abs(fs, s):
     return fsn + ("/" + rel if rel else ""), rel
 
 
-def judge_paths(v, maxlen):
-    strs = strings(maxlen)
+def judge_paths(v, maxlen, seed=1):
+    rng = random.Random(seed * 31 + 7)
+    strs = strings(maxlen) + ["".join(rng.choice(ALPHA + "cd-_") for _ in range(rng.randint(6, 14))) for _ in range(3000)]
     qs = []
     for fs in ("/x/cg", "/x/cg/"):
         for s in strs:
@@ -60,6 +61,17 @@ def judge_paths(v, maxlen):
     for a in small:
         for b in small:
             qs.append({"q": "eq", "fs": "/x/cg", "a": a, "b": b})
+    longs = strs[-3000:]
+    for _ in range(3000):
+        a = rng.choice(longs)
+        b = rng.choice([a, a + "/", "/" + a, a.replace("/", "//"), rng.choice(longs), a[:-1]])
+        qs.append({"q": "eq", "fs": "/x/cg", "a": a, "b": b})
+    # random longer (path, pattern) pairs for the hook relation
+    for _ in range(4000):
+        a = rng.choice(longs)
+        comps = P.split(a)
+        b = "/".join(("*" if rng.random() < 0.3 else c) for c in comps[:rng.randint(0, len(comps) + 1)]) if rng.random() < 0.7 else rng.choice(longs)
+        qs.append({"q": "match", "path": a, "pattern": b})
     res = pure.run_queries(qs)
     n = 0
     for q, (a, crash) in zip(qs, res):
@@ -79,6 +91,9 @@ def judge_paths(v, maxlen):
                 wpar = expect_abs(q["fs"], "/".join(P.split(q["p"])[:-1]))[0]
                 if a.get("parent") != wpar:
                     v.bad("parent", "", "CgroupPath(%r,%r).getParent()=%r expected %r" % (q["fs"], q["p"], a.get("parent"), wpar))
+        elif q["q"] == "match":
+            if a["m"] != P.hook_match(q["path"], q["pattern"]):
+                v.bad("hook-pattern-match", "long", "path %r pattern %r: hasDescendantWithPrefixMatching=%s, reference %s" % (q["path"], q["pattern"], a["m"], not a["m"]))
         else:
             same = P.canon(q["a"]) == P.canon(q["b"])
             if a["eq"] != same or a["ne"] == same or a["abs_eq"] != same or (same and not a["hash_eq"]):
@@ -208,7 +223,7 @@ def judge(case, results):
     v = core.Verdict()
     m = case.meta
     if m["part"] == "paths":
-        n = judge_paths(v, m["maxlen"])
+        n = judge_paths(v, m["maxlen"], m.get("seed", 1))
     elif m["part"] == "pairs":
         n = judge_pairs(v, m["maxlen"])
     elif m["part"] == "resolve":
